@@ -207,8 +207,13 @@ func (tr *trans) havocState(st State, name string) Term {
 	return sym
 }
 
-func (tr *trans) havocAll(st State) {
+func (tr *trans) havocAll(st State) { tr.havocAllExcept(st, nil) }
+
+func (tr *trans) havocAllExcept(st State, keep map[string]bool) {
 	for _, name := range sortedKeys(tr.known) {
+		if keep[name] {
+			continue
+		}
 		if name == "$next" {
 			old := tr.getState(st, name)
 			n := tr.havocState(st, name)
@@ -1242,6 +1247,9 @@ func (tr *trans) varAt(h *ssa.BasicBlock, name string, predIdx int, st State) (S
 // varAtEnd resolves a source variable at the end of block b (used by 'check' clauses at returns).
 func (tr *trans) varAtEnd(b *ssa.BasicBlock, name string, st State) (SV, bool) {
 	env := &Env{tr: tr, vc: tr.vc, errs: &tr.errs}
+	if sv, ok := tr.rangeSliceByName(name); ok {
+		return sv, true
+	}
 	for d := b; d != nil; d = d.Idom() {
 		for i := len(d.Instrs) - 1; i >= 0; i-- {
 			if al, ok := d.Instrs[i].(*ssa.Alloc); ok && al.Comment == name {
@@ -1268,6 +1276,52 @@ func (tr *trans) varAtEnd(b *ssa.BasicBlock, name string, st State) (SV, bool) {
 					case *ssa.Const, *ssa.Parameter:
 						return env.goSV(tr.val(x.X), x.X.Type()), true
 					}
+				}
+			}
+		}
+	}
+	return SV{}, false
+}
+
+// rangeSliceOf: the slice (or array pointer) value a `for i, v := range x` loop iterates over.
+func (tr *trans) rangeSliceOf(li *loopInfo) ssa.Value {
+	h := tr.fn.Blocks[li.head]
+	var phi *ssa.Phi
+	for _, in := range h.Instrs {
+		if p, ok := in.(*ssa.Phi); ok && p.Comment == "rangeindex" {
+			phi = p
+		}
+	}
+	if phi == nil {
+		return nil
+	}
+	for bi := range li.blocks {
+		for _, in := range tr.fn.Blocks[bi].Instrs {
+			ia, ok := in.(*ssa.IndexAddr)
+			if !ok {
+				continue
+			}
+			inc, ok := ia.Index.(*ssa.BinOp)
+			if ok && inc.Op == token.ADD && inc.X == phi {
+				return ia.X
+			}
+		}
+	}
+	return nil
+}
+
+func (tr *trans) rangeSliceByName(name string) (SV, bool) {
+	if !strings.HasPrefix(name, "rangeslice") || len(name) <= len("rangeslice") {
+		return SV{}, false
+	}
+	ord := 0
+	fmt.Sscanf(name[len("rangeslice"):], "%d", &ord)
+	for _, li := range tr.loopList {
+		if li.ord == ord {
+			if v := tr.rangeSliceOf(li); v != nil {
+				if _, done := tr.vals[v]; done {
+					env := &Env{tr: tr, vc: tr.vc, errs: &tr.errs}
+					return env.goSV(tr.val(v), v.Type()), true
 				}
 			}
 		}
@@ -1318,6 +1372,16 @@ func (tr *trans) loopEnv(li *loopInfo, predIdx int, st State) *Env {
 					return env.intSV(tr.getState(st, sn)), true
 				}
 			}
+		}
+		if name == "rangeslice" {
+			if v := tr.rangeSliceOf(li); v != nil {
+				if _, done := tr.vals[v]; done {
+					return env.goSV(tr.val(v), v.Type()), true
+				}
+			}
+		}
+		if sv, ok := tr.rangeSliceByName(name); ok {
+			return sv, true
 		}
 		if name == "iterseen" {
 			// ghost set of the keys already visited by the map iterator feeding this loop
